@@ -26,6 +26,9 @@ class HasMeth:
     def meth(self) -> int: return 1
 class G(Generic[T]): pass
 class GL(list[T]): pass
+S = TypeVar('S')
+class GD(dict[T, S]): pass
+class GS(set[T]): pass
 
 def _reg(v, d): VDESC[id(v)] = (d, v); return v
 def _d(v): return VDESC[id(v)][0]
@@ -61,10 +64,10 @@ LEAVES_EXT = ['L0', 'L1', 'L2', 'int', 'str', 'float', 'bool', 'None', 'object',
               'Annotated[int, IS(pos)]', 'Annotated[L0, ISINST(L2)]', 'Proto', 'G[int]', 'Iterator[int]', 'Callable[[int], str]']
 UNARY = ['list[{0}]', 'tuple[{0}, ...]', 'Sequence[{0}]', 'MutableSequence[{0}]', 'set[{0}]', 'frozenset[{0}]', 'deque[{0}]',
          'Collection[{0}]', 'Set[{0}]', 'MutableSet[{0}]', 'KeysView[{0}]', 'ValuesView[{0}]', 'Iterable[{0}]', 'Container[{0}]',
-         'Reversible[{0}]', 'Optional[{0}]', 'tuple[{0}]', 'Counter[{0}]', 'type[{0}]', 'Iterator[{0}]', 'Generator[{0}, None, None]',
+         'Reversible[{0}]', 'Optional[{0}]', 'tuple[{0}]', 'Counter[{0}]', 'Iterator[{0}]', 'Generator[{0}, None, None]',
          'Annotated[{0}, IS(pos)]', 'Annotated[{0}, ISEQ(5), IS(pos)]', "Annotated[{0}, ISATTR('x', ISEQ(1))]", 'GL[{0}]']
 BINARY = ['dict[{0}, {1}]', 'Mapping[{0}, {1}]', 'MutableMapping[{0}, {1}]', 'defaultdict[{0}, {1}]', 'OrderedDict[{0}, {1}]',
-          'ChainMap[{0}, {1}]', 'ItemsView[{0}, {1}]', 'Union[{0}, {1}]', 'tuple[{0}, {1}]']
+          'ChainMap[{0}, {1}]', 'ItemsView[{0}, {1}]', 'Union[{0}, {1}]', 'tuple[{0}, {1}]', 'GD[{0}, {1}]']
 NULLARY = ['tuple[()]', "Literal[1, 'a', None]", 'Literal[True]', 'type[Any]', 'type[Union[L0, L1]]', 'Optional[L0]', 'Union[L0, L1, None]',
            'tuple[L0, L1, int]', 'Annotated[object, IS(pos)]', 'Annotated[L0, AND(ISINST(L2), NOT(ISEQ(5)))]',
            "Annotated[object, OR(ISATTR('x', ISEQ(1)), ISSUB(L0))]", 'Annotated[Any, ISSUB(L0, L1)]']
@@ -97,6 +100,13 @@ def depth_shapes(depth, leaves=LEAVES_CORE, unary=UNARY, binary=BINARY):
         for a, b in itertools.product(sub, repeat=2): out.append(f.format(a, b))
     return out
 
+def gt3(v): return isinstance(v, int) and v > 3
+NS['gt3'] = gt3
+NULLARY += ['type[L0]', 'type[int]', 'type[Union[L0, int]]', 'type[TB]', 'tuple[Annotated[object, ISEQ(5), IS(gt3)]]',
+            "list[Annotated[object, ISATTR('x', ISEQ(1))]]", 'Annotated[int, ISEQ(5), IS(gt3)]']
+LEAVES_EXT += ['type[L1]', 'Annotated[object, ISEQ(5), IS(gt3)]']
+NULLARY += ['GD[L0, T]', 'GD[L0, GS[L1]]', 'GD[GL[L1], GS[int]]', 'GL[GL[L0]]', 'GD[str, GD[int, L0]]', 'list[GD[L0, GL[L1]]]']
+UNARY += ['GS[{0}]']
 def sample_shapes(depth, n, seed, leaves=LEAVES_EXT):
     """seeded random shapes of exactly the given depth"""
     rnd = random.Random(seed)
